@@ -14,12 +14,18 @@ for d in sorted(os.listdir(os.path.join(V, "seeded"))):
     first = next((v["first_violation"] for v in m["checks"].values() if v["exit"] == 1), "") or ""
     hist = m.get("history", [])
     missed_first = bool(hist) and not hist[0]["caught"]
-    rows.append((d, m["property"], ", ".join(files), "yes" if m.get("confirmed") else "NO", ", ".join(caught) or "MISSED",
-                 "missed at first, check strengthened" if missed_first and caught else "", first.split("] ", 1)[-1][:110].replace("|", "/")))
+    oos = ""
+    op = os.path.join(V, "seeded", d, "OUT_OF_SCOPE.md")
+    if os.path.exists(op):
+        oos = "outside the property as stated: " + open(op).read().strip().splitlines()[0]
+    rows.append((d, m["property"], ", ".join(files), "yes" if m.get("confirmed") else "NO",
+                 ", ".join(caught) or ("not claimed" if oos else "MISSED"),
+                 oos or ("missed at first, check strengthened" if missed_first and caught else ""), first.split("] ", 1)[-1][:110].replace("|", "/")))
 with open(os.path.join(V, "seeded", "INDEX.md"), "w") as f:
     f.write("# Seeded changes (written by sub-agents from the property text only)\n\n")
     f.write("Each directory holds patch.diff, demo.py, notes.md (the author's) and meta.json (what was confirmed and run here).\n\n")
     f.write("| name | property | file(s) changed | confirmed | caught by (quick) | note | first violation reported |\n|---|---|---|---|---|---|---|\n")
     for r in rows:
         f.write("| " + " | ".join(r) + " |\n")
-print(len(rows), "seeds;", sum(1 for r in rows if r[4] != "MISSED"), "caught")
+print(len(rows), "seeds;", sum(1 for r in rows if r[4] not in ("MISSED", "not claimed")), "caught;",
+      sum(1 for r in rows if r[4] == "not claimed"), "outside the stated property;", sum(1 for r in rows if r[4] == "MISSED"), "missed")
